@@ -167,64 +167,138 @@ def check(ctx):
 
 def check_uniform(ctx):
     F = ctx.F
-    # ---- UniformXo Vec ---------------------------------------------------------
-    f = ctx.fn(UX + R % "[std::vec::Vec<T>; 2]")
-    for p in [p for p in ctx.paths(f) if p.end != "unreachable"]:
-        g = len_guard(p)
-        if g == "different":
-            ok = is_err_return(p) and any(x[0] == "agg" and path_ends(x[2], "DifferentGenomeLength::DifferentGenomeLength") and is_len_of(x[3][0], 0) and is_len_of(x[3][1], 1) for x in subexprs(p.ret))
-            ctx.check(ok, "R10.1", "UniformXo<Vec>/length-mismatch->DifferentGenomeLength(len_a,len_b)", short(p.ret, 5), f.at())
-            continue
-        b = {}
-        ok = g == "equal" and match(p.ret, Agg("Result::Ok", Call("Iterator::collect", Call("Iterator::map", Agg("Range::Range", Const(0), lambda e: is_len_of(e, 0)), Bind("clo"), nargs=2), nargs=1)), b)
-        ctx.check(ok, "R10.5", "UniformXo<Vec>/collect(map(0..len,closure))-under-equal-length", short(p.ret, 6), f.at())
-        if ok:
-            cps = [q for q in closure_paths(ctx, b["clo"]) if q.end != "unreachable"]
-            seen = set()
-            good = len(cps) == 2
-            for q in cps:
+    from . import ckit as K
+    def vec_indexed(ctx):
+        F = ctx.F
+        # ---- UniformXo Vec ---------------------------------------------------------
+        f = ctx.fn(UX + R % "[std::vec::Vec<T>; 2]")
+        for p in [p for p in ctx.paths(f) if p.end != "unreachable"]:
+            g = len_guard(p)
+            if g == "different":
+                ok = is_err_return(p) and any(x[0] == "agg" and path_ends(x[2], "DifferentGenomeLength::DifferentGenomeLength") and is_len_of(x[3][0], 0) and is_len_of(x[3][1], 1) for x in subexprs(p.ret))
+                ctx.check(ok, "R10.1", "UniformXo<Vec>/length-mismatch->DifferentGenomeLength(len_a,len_b)", short(p.ret, 5), f.at())
+                continue
+            b = {}
+            ok = g == "equal" and match(p.ret, Agg("Result::Ok", Call("Iterator::collect", Call("Iterator::map", Agg("Range::Range", Const(0), lambda e: is_len_of(e, 0)), Bind("clo"), nargs=2), nargs=1)), b)
+            ctx.check(ok, "R10.5", "UniformXo<Vec>/collect(map(0..len,closure))-under-equal-length", short(p.ret, 6), f.at())
+            if ok:
+                cps = [q for q in closure_paths(ctx, b["clo"]) if q.end != "unreachable"]
+                seen = set()
+                good = len(cps) == 2
+                for q in cps:
+                    dr = [c for c in q.calls() if callee_is(c, "Rng::random")]
+                    good = good and len(dr) == 1 and rng_passthrough(dr[0][3][0], 3) and len(q.conds) == 1 and q.conds[0][0] == dr[0]
+                    r = q.ret
+                    okr = match(r, Call("Clone::clone", Call("Index::index", ANY, CParam(2), nargs=2), nargs=1))
+                    if okr:
+                        src = peel(r[3][0][3][0], ("Deref::deref",))
+                        seen.add(0 if src == G(0) else 1 if src == G(1) else -1)
+                    good = good and okr
+                    # bool generic
+                    term = F.fns[dr[0][4][-2]].blocks[dr[0][4][-1]]["term"] if dr else None
+                    good = good and term is not None and any(t.get("s") == "bool" for t in term.get("targs", []))
+                ctx.check(good and seen == {0, 1}, "R10.5", "UniformXo<Vec>/per-position-coin-picks-same-position-gene", "parents used: %s" % sorted(seen), f.at(),
+                          bad_detail="closure must draw one random::<bool>() and return first[pos].clone() or second[pos].clone(): " + "; ".join(short(q.ret, 5) for q in cps))
+
+    def vec_zipped(ctx):
+        """the same clauses for `first.iter().zip(&second).map(|(a, b)| if coin { a.clone() } else { b.clone() }).collect()`: position-wise by
+        construction (zip pairs equal positions), one coin per position, true takes the first parent's gene"""
+        f = ctx.fn(UX + R % "[std::vec::Vec<T>; 2]")
+        for p in [p for p in ctx.paths(f) if p.end != "unreachable"]:
+            g = len_guard(p)
+            if g == "different":
+                ok = is_err_return(p) and any(x[0] == "agg" and path_ends(x[2], "DifferentGenomeLength::DifferentGenomeLength") and is_len_of(x[3][0], 0) and is_len_of(x[3][1], 1) for x in subexprs(p.ret))
+                ctx.check(ok, "R10.1", "UniformXo<Vec>/length-mismatch->DifferentGenomeLength(len_a,len_b)", short(p.ret, 5), f.at())
+                continue
+            b = {}
+            side = lambda i: (lambda e: peel(e, ("Deref::deref", "[T]::iter", "IntoIterator::into_iter", "Vec::as_slice")) == G(i))
+            ok = g == "equal" and match(p.ret, Agg("Result::Ok", Call("Iterator::collect", Call("Iterator::map", Call("Iterator::zip", side(0), side(1), nargs=2), Bind("clo"), nargs=2), nargs=1)), b)
+            ctx.check(ok, "R10.5", "UniformXo<Vec>/collect(map(0..len,closure))-under-equal-length", short(p.ret, 6), f.at())
+            if ok:
+                cps = [q for q in closure_paths(ctx, b["clo"]) if q.end != "unreachable"]
+                picked = {}
+                good = len(cps) == 2
+                for q in cps:
+                    dr = [c for c in q.calls() if callee_is(c, "Rng::random")]
+                    good = good and len(dr) == 1 and rng_passthrough(dr[0][3][0], 3) and len(q.conds) == 1 and q.conds[0][0] == dr[0]
+                    r = q.ret
+                    okr = callee_is(r, "Clone::clone") and len(r[3]) == 1 and peel(r[3][0], ())[0] == "field" and peel(peel(r[3][0], ())[1], ())[:2] == ("cparam", 2)
+                    if okr and good:
+                        picked[q.conds[0][1] != 0] = peel(r[3][0], ())[2]
+                    good = good and okr
+                    term = F.fns[dr[0][4][-2]].blocks[dr[0][4][-1]]["term"] if dr else None
+                    good = good and term is not None and any(t.get("s") == "bool" for t in term.get("targs", []))
+                ctx.check(good and picked == {True: 0, False: 1}, "R10.5", "UniformXo<Vec>/per-position-coin-picks-same-position-gene", "coin true -> first parent's gene, false -> second's", f.at(),
+                          bad_detail="closure must draw one random::<bool>() and return the first parent's gene of the pair on true, the second's on false: " + "; ".join(short(q.ret, 5) for q in cps))
+    K.either(ctx, vec_indexed, vec_zipped)
+
+    def g_for_loop(ctx):
+        F = ctx.F
+        # ---- UniformXo G -------------------------------------------------------------
+        f = ctx.fn(UX + R % "[G; 2]")
+        paths = [p for p in ctx.paths(f) if p.end != "unreachable"]
+        n_x = 0
+        for p in paths:
+            g = len_guard(p)
+            xs = [c for c in p.calls() if callee_is(c, "Crossover::crossover_gene")]
+            dr = [c for c in p.calls() if callee_is(c, "Rng::random")]
+            if g == "different":
+                ok = is_err_return(p) and not xs and not dr and any(x[0] == "agg" and path_ends(x[2], "DifferentGenomeLength::DifferentGenomeLength") and is_len_of(x[3][0], 0) and is_len_of(x[3][1], 1) for x in subexprs(p.ret))
+                ctx.check(ok, "R10.1", "UniformXo<G>/length-mismatch->DifferentGenomeLength(len_a,len_b)", short(p.ret, 5), f.at())
+                continue
+            if g != "equal":
+                ctx.bad("R10.1", "UniformXo<G>/unguarded-path", cond_str(p)[:300], f.at())
+                continue
+            for c in xs:
+                n_x += 1
+                idx = c[3][2]
+                ok = peel(c[3][0], ()) == G(0) and peel(c[3][1], ()) == G(1) and \
+                    match(idx, Field(Call("Iterator::next", Through(Call("IntoIterator::into_iter", Agg("Range::Range", Const(0), lambda e: is_len_of(e, 0))))), 0, "Some"))
+                coin = [cc for cc in p.conds if callee_is(cc[0], "Rng::random") and cc[1] != 0]
+                ctx.check(ok and len(coin) == 1 and len(dr) == 1 and dr[0][3][0] == RNG, "R10.5", "UniformXo<G>/exchange-gene-at-loop-index-iff-coin", short(c, 4), f.at(),
+                          bad_detail="crossover_gene must be applied to (first, second, current loop index) exactly when the per-position coin is true: " + short(c, 6))
+            if not xs and dr:
+                coin = [cc for cc in p.conds if callee_is(cc[0], "Rng::random") and cc[1] == 0]
+                ctx.check(len(coin) == 1 and len(dr) == 1, "R10.5", "UniformXo<G>/no-exchange-when-coin-false", cond_str(p)[:200], f.at())
+            if p.end == "return" and not is_err_return(p):
+                ctx.check(match(p.ret, Agg("Result::Ok", lambda e: e == G(0))), "R10.4", "UniformXo<G>/child-is-first-parent", short(p.ret), f.at())
+        ctx.floor("R10.5", n_x, 1, "UniformXo<G> exchange sites")
+
+    def g_try_for_each(ctx):
+        """the same clauses for `(0..len).try_for_each(|i| { if coin { first.crossover_gene(&mut second, i)?; } Ok(()) })`"""
+        f = ctx.fn(UX + R % "[G; 2]")
+        paths = [p for p in ctx.paths(f) if p.end != "unreachable"]
+        n_x = 0
+        for p in paths:
+            g = len_guard(p)
+            tfe = [c for c in p.calls() if callee_is(c, "Iterator::try_for_each")]
+            if g == "different":
+                ok = is_err_return(p) and not tfe and any(x[0] == "agg" and path_ends(x[2], "DifferentGenomeLength::DifferentGenomeLength") and is_len_of(x[3][0], 0) and is_len_of(x[3][1], 1) for x in subexprs(p.ret))
+                ctx.check(ok, "R10.1", "UniformXo<G>/length-mismatch->DifferentGenomeLength(len_a,len_b)", short(p.ret, 5), f.at())
+                continue
+            if g != "equal":
+                ctx.bad("R10.1", "UniformXo<G>/unguarded-path", cond_str(p)[:300], f.at())
+                continue
+            okt = len(tfe) == 1 and match(tfe[0][3][0], Through(Agg("Range::Range", Const(0), lambda e: is_len_of(e, 0)))) and tfe[0][3][1][0] == "agg" and tfe[0][3][1][1] == "closure"
+            ctx.check(okt, "R10.5", "UniformXo<G>/one-pass-over-0..len", short(tfe[0], 3) if tfe else "-", f.at())
+            if not okt:
+                continue
+            for q in [q for q in closure_paths(ctx, tfe[0][3][1]) if q.end != "unreachable"]:
+                xs = [c for c in q.calls() if callee_is(c, "Crossover::crossover_gene")]
                 dr = [c for c in q.calls() if callee_is(c, "Rng::random")]
-                good = good and len(dr) == 1 and rng_passthrough(dr[0][3][0], 3) and len(q.conds) == 1 and q.conds[0][0] == dr[0]
-                r = q.ret
-                okr = match(r, Call("Clone::clone", Call("Index::index", ANY, CParam(2), nargs=2), nargs=1))
-                if okr:
-                    src = peel(r[3][0][3][0], ("Deref::deref",))
-                    seen.add(0 if src == G(0) else 1 if src == G(1) else -1)
-                good = good and okr
-                # bool generic
-                term = F.fns[dr[0][4][-2]].blocks[dr[0][4][-1]]["term"] if dr else None
-                good = good and term is not None and any(t.get("s") == "bool" for t in term.get("targs", []))
-            ctx.check(good and seen == {0, 1}, "R10.5", "UniformXo<Vec>/per-position-coin-picks-same-position-gene", "parents used: %s" % sorted(seen), f.at(),
-                      bad_detail="closure must draw one random::<bool>() and return first[pos].clone() or second[pos].clone(): " + "; ".join(short(q.ret, 5) for q in cps))
-    # ---- UniformXo G -------------------------------------------------------------
-    f = ctx.fn(UX + R % "[G; 2]")
-    paths = [p for p in ctx.paths(f) if p.end != "unreachable"]
-    n_x = 0
-    for p in paths:
-        g = len_guard(p)
-        xs = [c for c in p.calls() if callee_is(c, "Crossover::crossover_gene")]
-        dr = [c for c in p.calls() if callee_is(c, "Rng::random")]
-        if g == "different":
-            ok = is_err_return(p) and not xs and not dr and any(x[0] == "agg" and path_ends(x[2], "DifferentGenomeLength::DifferentGenomeLength") and is_len_of(x[3][0], 0) and is_len_of(x[3][1], 1) for x in subexprs(p.ret))
-            ctx.check(ok, "R10.1", "UniformXo<G>/length-mismatch->DifferentGenomeLength(len_a,len_b)", short(p.ret, 5), f.at())
-            continue
-        if g != "equal":
-            ctx.bad("R10.1", "UniformXo<G>/unguarded-path", cond_str(p)[:300], f.at())
-            continue
-        for c in xs:
-            n_x += 1
-            idx = c[3][2]
-            ok = peel(c[3][0], ()) == G(0) and peel(c[3][1], ()) == G(1) and \
-                match(idx, Field(Call("Iterator::next", Through(Call("IntoIterator::into_iter", Agg("Range::Range", Const(0), lambda e: is_len_of(e, 0))))), 0, "Some"))
-            coin = [cc for cc in p.conds if callee_is(cc[0], "Rng::random") and cc[1] != 0]
-            ctx.check(ok and len(coin) == 1 and len(dr) == 1 and dr[0][3][0] == RNG, "R10.5", "UniformXo<G>/exchange-gene-at-loop-index-iff-coin", short(c, 4), f.at(),
-                      bad_detail="crossover_gene must be applied to (first, second, current loop index) exactly when the per-position coin is true: " + short(c, 6))
-        if not xs and dr:
-            coin = [cc for cc in p.conds if callee_is(cc[0], "Rng::random") and cc[1] == 0]
-            ctx.check(len(coin) == 1 and len(dr) == 1, "R10.5", "UniformXo<G>/no-exchange-when-coin-false", cond_str(p)[:200], f.at())
-        if p.end == "return" and not is_err_return(p):
-            ctx.check(match(p.ret, Agg("Result::Ok", lambda e: e == G(0))), "R10.4", "UniformXo<G>/child-is-first-parent", short(p.ret), f.at())
-    ctx.floor("R10.5", n_x, 1, "UniformXo<G> exchange sites")
+                for c in xs:
+                    n_x += 1
+                    ok = peel(c[3][0], ()) == G(0) and peel(c[3][1], ()) == G(1) and peel(c[3][2], ())[:2] == ("cparam", 2)
+                    coin = [cc for cc in q.conds if callee_is(cc[0], "Rng::random") and cc[1] != 0]
+                    ctx.check(ok and len(coin) == 1 and len(dr) == 1 and rng_passthrough(dr[0][3][0], 3), "R10.5", "UniformXo<G>/exchange-gene-at-loop-index-iff-coin", short(c, 4), f.at(),
+                              bad_detail="crossover_gene must be applied to (first, second, current index) exactly when the per-position coin is true: " + short(c, 6))
+                if not xs and dr:
+                    coin = [cc for cc in q.conds if callee_is(cc[0], "Rng::random") and cc[1] == 0]
+                    ctx.check(len(coin) == 1 and len(dr) == 1, "R10.5", "UniformXo<G>/no-exchange-when-coin-false", cond_str(q)[:200], f.at())
+            if p.end == "return" and not is_err_return(p):
+                ctx.check(match(p.ret, Agg("Result::Ok", lambda e: e == G(0))), "R10.4", "UniformXo<G>/child-is-first-parent", short(p.ret), f.at())
+        ctx.floor("R10.5", n_x, 1, "UniformXo<G> exchange sites")
+    K.either(ctx, g_for_loop, g_try_for_each)
 
 
 
